@@ -309,6 +309,20 @@ impl ProgramEntry {
     }
 }
 
+struct SgIter<'a> {
+    inner: std::slice::Iter<'a, (String, String)>,
+    exact: bool,
+}
+impl Iterator for SgIter<'_> {
+    type Item = SampleGroupElement;
+    fn next(&mut self) -> Option<SampleGroupElement> {
+        self.inner.next().map(|(k, v)| (Cow::Owned(k.clone()), Cow::Owned(v.clone())))
+    }
+    fn size_hint(&self) -> (usize, Option<usize>) {
+        if self.exact { self.inner.size_hint() } else { (0, self.inner.size_hint().1) }
+    }
+}
+
 impl Entry for ProgramEntry {
     fn write<'a>(&'a self, writer: &mut impl EntryWriter<'a>) {
         for (i, op) in self.ops.iter().enumerate() {
@@ -333,8 +347,8 @@ impl Entry for ProgramEntry {
     }
 
     fn sample_group(&self) -> impl Iterator<Item = SampleGroupElement> {
-        self.sample_group
-            .iter()
-            .map(|(k, v)| (Cow::Owned(k.clone()), Cow::Owned(v.clone())))
+        // (the size hint of this iterator is exact for groups of even length and has a lower bound of 0
+        // otherwise: a wrapper must iterate, not trust the hint)
+        SgIter { inner: self.sample_group.iter(), exact: self.sample_group.len() % 2 == 0 }
     }
 }
